@@ -60,6 +60,9 @@ def run(ctx, idx):
             raise AnalysisError("fuzzy operator %s vanished" % name)
         d, r = res[name]
         R.uses_all_inputs(ctx, "C06.a", d, r)
+        for kind_, line_, msg_, fk_, node_ in r.findings:
+            if kind_ == "out-container":
+                ctx.violate("C06.e", "%s.execute::out-target-is-masked@%s" % (d.key, K.src(node_)[:40]), d.module.rel, line_, msg_ + " (the operator then combines a hidden value where the definition has a missing cell, and the result depends on which input comes first)")
         for n, s, v in R.ret_sites(d, r):
             if isinstance(v, Arr):
                 miss = R.input_tokens(d) - v.M
